@@ -210,6 +210,9 @@ def base_problems(seed=0):
             c = [pal[(j + v + 1) % 3] for j in range(n)]
             out.append({'fam': 'ball', 'entry': 'cpl', 'c': c, 'xc': xc, 'r': 1.0 + v, 'x0': list(xc), 'xf': list(xc),
                         'tag': 'ball%d.%d' % (n, v)})
+            # same problem started off-centre (at the centre Df(x0) = 0 and cpl is known to stall, see known_findings C05)
+            out.append({'fam': 'ball', 'entry': 'cpl', 'c': c, 'xc': xc, 'r': 1.0 + v, 'x0': [xc[0] + 0.5] + list(xc[1:]),
+                        'xf': list(xc), 'tag': 'ballo%d.%d' % (n, v)})
     # exp constraint (cpl)
     out.append({'fam': 'expc', 'entry': 'cpl', 'c': [-1.0, 0.5], 'x0': [0.0, 2.0], 'xf': [0.0, 2.0], 'tag': 'expc2'})
     out.append({'fam': 'expc', 'entry': 'cpl', 'c': [-1.0, 0.5, 1.0], 'x0': [0.0, 2.0, 0.0], 'xf': [0.0, 2.0, 0.0], 'tag': 'expc3'})
